@@ -58,7 +58,9 @@ var fieldValues = map[string][]string{
 }
 
 var varyConfigs = []string{"", "X-A", "X-A, X-B", "X-B, X-A", "x-a", "*", "X-A, *", "Content-Language", "User-Agent", "Authorization",
-	"X-A|X-B", "If-Unmodified-Since", "X-A,,X-B"}
+	"X-A|X-B", "If-Unmodified-Since", "X-A,,X-B",
+	// fields the cache itself adds to a validation request; names that are not tokens / not valid UTF-8
+	"If-None-Match", "If-Modified-Since", "X-A, If-None-Match", "X-\xe9", "*, X-\xe9", "X-A, x-\xff\xfe"}
 
 // method tokens are case-sensitive: "get" is an extension method, not GET
 var unsafeMethods = []string{"POST", "PUT", "DELETE", "PATCH", "PROPPATCH", "MKCOL", "FOO", "post", "get", "Get", "gEt"}
@@ -98,6 +100,8 @@ func (g *G) cacheableReply(at int64, vary string, lifetime int64) Reply {
 	h = append(h, [2]string{"Cache-Control", cc})
 	if g.chance(0.6) {
 		h = append(h, [2]string{"Etag", `"e` + strconv.Itoa(g.r.Intn(3)) + `"`})
+	} else if g.chance(0.3) {
+		h = append(h, [2]string{"Etag", `"u` + strconv.FormatInt(at, 10) + `"`}) // a new ETag with every answer
 	}
 	h = append(h, varyHdr(vary)...)
 	return Reply{Status: 200, Hdr: h, Body: "b", BodyFail: -1}
